@@ -115,6 +115,10 @@ void tables_init();
 bool in_table_set(uintptr_t a);
 uint64_t tables_hash();
 bool in_lib_static(uintptr_t a);
+void tables_snapshot();                       // template: remember the pristine contents (per symbol)
+bool tables_changed(std::string* which);      // compare with the snapshot
+extern bool g_table_store_seen;               // an instrumented store hit the table set during the current op
+extern char g_table_store_site[96], g_table_store_where[128];
 
 // ---------------------------------------------------------------- allocator seam
 struct AllocInfo { uint32_t id; uint32_t size; int task; int op; int nth; uintptr_t site0, site1; };
